@@ -25,11 +25,11 @@ import (
 // C18: MapStore, LevelDbStore and a reference model in lock step.
 
 type c18Model struct {
-	meta     *crlreader.CRLMetaInfo
-	ext      *crlreader.ExtendedCRLMetaInfo
-	signer   []byte
-	locs     *core.CRLLocations
-	entries  map[string]*pkix.RevokedCertificate
+	meta    *crlreader.CRLMetaInfo
+	ext     *crlreader.ExtendedCRLMetaInfo
+	signer  []byte
+	locs    *core.CRLLocations
+	entries map[string]*pkix.RevokedCertificate
 }
 
 func newC18Model() *c18Model { return &c18Model{entries: map[string]*pkix.RevokedCertificate{}} }
@@ -44,10 +44,10 @@ func (m *c18Model) clone() *c18Model {
 }
 
 type c18Op struct {
-	Name string
-	Do   func(s crlstore.CRLStore) error   // on a real store
-	Ref  func(m *c18Model)                 // on the model
-	Special string                         // "replace:<k>" | "reopen"
+	Name    string
+	Do      func(s crlstore.CRLStore) error // on a real store
+	Ref     func(m *c18Model)               // on the model
+	Special string                          // "replace:<k>" | "reopen"
 }
 
 type c18Vals struct {
@@ -87,7 +87,9 @@ func newC18Vals() *c18Vals {
 				}
 				iss := v.issuers[ii]
 				v.ops = append(v.ops, c18Op{Name: fmt.Sprintf("insert(%c,s%d,ext%d)", 'A'+ii, si, ei),
-					Do:  func(s crlstore.CRLStore) error { return s.InsertRevokedCert(&crlreader.CRLEntry{Issuer: &iss, RevokedCertificate: rc}) },
+					Do: func(s crlstore.CRLStore) error {
+						return s.InsertRevokedCert(&crlreader.CRLEntry{Issuer: &iss, RevokedCertificate: rc})
+					},
 					Ref: func(m *c18Model) { m.entries[c18Key(iss, rc.SerialNumber)] = rc }})
 			}
 		}
@@ -113,7 +115,9 @@ func newC18Vals() *c18Vals {
 	return v
 }
 
-func c18Key(iss pkix.RDNSequence, serial *big.Int) string { return iss.String() + "#" + serial.String() }
+func c18Key(iss pkix.RDNSequence, serial *big.Int) string {
+	return iss.String() + "#" + serial.String()
+}
 
 // observe renders every getter of a real store.
 func (v *c18Vals) observe(s crlstore.CRLStore) string {
@@ -350,10 +354,10 @@ func c18Shapes(chk *fw.Check) int {
 	n := 0
 	t2060 := time.Date(2060, 5, 6, 7, 8, 9, 0, time.UTC)
 	issuers := map[string]pkix.RDNSequence{
-		"non-ascii":  {{pkix.AttributeTypeAndValue{Type: []int{2, 5, 4, 3}, Value: "Zürich ✓ 名前"}}},
-		"multi-rdn":  {{pkix.AttributeTypeAndValue{Type: []int{2, 5, 4, 3}, Value: "a"}, pkix.AttributeTypeAndValue{Type: []int{2, 5, 4, 11}, Value: "b"}}},
-		"empty-cn":   {{pkix.AttributeTypeAndValue{Type: []int{2, 5, 4, 3}, Value: ""}}},
-		"plain":      rdn("plain"),
+		"non-ascii": {{pkix.AttributeTypeAndValue{Type: []int{2, 5, 4, 3}, Value: "Zürich ✓ 名前"}}},
+		"multi-rdn": {{pkix.AttributeTypeAndValue{Type: []int{2, 5, 4, 3}, Value: "a"}, pkix.AttributeTypeAndValue{Type: []int{2, 5, 4, 11}, Value: "b"}}},
+		"empty-cn":  {{pkix.AttributeTypeAndValue{Type: []int{2, 5, 4, 3}, Value: ""}}},
+		"plain":     rdn("plain"),
 	}
 	serials := map[string]*big.Int{"zero": big.NewInt(0), "negative": big.NewInt(-5), "one": big.NewInt(1), "big": new(big.Int).Lsh(big.NewInt(1), 159)}
 	extss := map[string][]pkix.Extension{
@@ -414,10 +418,10 @@ func c18Shapes(chk *fw.Check) int {
 		"non-ascii":     {Issuer: issuers["non-ascii"], ThisUpdate: times["utc"], NextUpdate: times["utc"].Add(time.Hour)},
 	}
 	locShapes := map[string]*core.CRLLocations{
-		"empty":       {},
-		"empty-list":  {CRLDistributionPoints: []string{}},
-		"file":        {CRLFile: "/tmp/x y/ü.crl"},
-		"long":        {CRLDistributionPoints: []string{strings.Repeat("http://x/", 500)}},
+		"empty":      {},
+		"empty-list": {CRLDistributionPoints: []string{}},
+		"file":       {CRLFile: "/tmp/x y/ü.crl"},
+		"long":       {CRLDistributionPoints: []string{strings.Repeat("http://x/", 500)}},
 	}
 	for mn, mi := range metaShapes {
 		for ln, lo := range locShapes {
